@@ -302,6 +302,13 @@ func (q *eqCtx) levelConst(name string) *Expr {
 var levels = []string{"ExactFlags", "ExactLines", "AnyPointer", "AnyValue"}
 
 func newEq(c *Ctx, a *flAgg, recv, name string, rule string) *eqCtx {
+	// an "equal" that no longer exists (equality delegated to similar at the
+	// strictest level, the unused method removed) leaves nothing to decide,
+	// provided its "similar" sibling is there
+	if name == "equal" && c.L.Func("stack", recv, "equal") == nil && c.L.Func("stack", recv, "similar") != nil {
+		a.ok(rule, recv+".equal", "no separate equality on this type: equality is similarity at the strictest level (decided there)", token.NoPos)
+		return nil
+	}
 	fn := c.MustFunc(a.obls, rule, "stack", recv, name)
 	if fn == nil {
 		return nil
